@@ -57,7 +57,7 @@ Definition res_same {B C} (eqb : B -> C -> bool) (a : res B) (b : res C) : bool 
 Definition ofl_eqb (a b : oframe * layout) : bool := oframe_eqb (fst a) (fst b) && layout_eqb (snd a) (snd b).
 Definition of_eqb_ofl (a : oframe) (b : oframe * layout) : bool := oframe_eqb a (fst b).
 
-(* same frame up to the name (mask does not propagate the name: series.py:2166 docstring) *)
+(* same frame up to the name (mask does not propagate the name: Series._extract_iloc_mask docstring, series.py:1450) *)
 Definition oframe_eqb_noname (a b : oframe) : bool :=
   vlist_eqb (of_index a) (of_index b) && vlist_eqb (of_columns a) (of_columns b) &&
   list_eqb col_eqb (of_cols a) (of_cols b).
@@ -212,7 +212,7 @@ Definition S_series_assign_ok (s : oseries) (k : ckey) (v : aval) (fill : val) (
   | Err _ => false
   end.
 
-(* MODEL of FrameAssignILoc.__call__ for unlabelled values / already aligned values (frame.py:7203-7249 +
+(* MODEL of FrameAssignILoc.__call__ for unlabelled values / already aligned values (frame.py:7207-7253 +
    TypeBlocks._assign_from_iloc_by_unit): which blocks come out, which columns are replaced, their dtype.
    `vdt` = dtype_from_element(value); `resolve` = util.resolve_dtype (the caller passes the regenerated kernel);
    cells of replaced columns are compared up to Python == *)
